@@ -69,7 +69,8 @@ Inductive ctl :=
 | CPlay
 | CKill (msg : option string)
 | CResume (v : option val)
-| CFail (e : exn).
+| CFail (e : exn)
+| CRaise (e : exn).               (* not a control call: a listener / callback script that just raises *)
 
 (* what a control call hands back *)
 Inductive cret :=
@@ -275,10 +276,12 @@ Section Reentrant.
     else put (w <| pfut := f |>) ;;; when (pfut_original w) (schedule RTryKilling).
 
   (* ---------------- close ---------------- *)
+  (* a user override of on_close runs its own code first, then super().on_close() whose try/finally
+     marks the process closed; a fault in the user part therefore leaves it open *)
   Definition on_close : LM unit :=
+    hook "on_close" ;;;
     finally
-      (hook "on_close" ;;;
-       w <- get ;;
+      (w <- get ;;
        mapM_ (fun c => emit (EvCleanup c)) (cleanups w) ;;;
        modify (fun w => w <| cleanups := [] |>))
       (modify (fun w => w <| hooks_alive := false |> <| closed := true |>)).
@@ -358,7 +361,16 @@ Section Reentrant.
         ret None
     end.
 
-  Definition on_terminated : LM unit := hook "on_terminated" ;;; close.
+  (* Process.on_terminated: user hook, then a stepping coroutine still waiting on self._paused is
+     released (self._paused.set_result(True); the paused flag itself stays), then close() *)
+  Definition on_terminated : LM unit :=
+    hook "on_terminated" ;;;
+    w <- get ;;
+    match paused w, t0 w with
+    | Some fid, PcAwaitPaused f => when (Nat.eqb f fid) (schedule (RWakeT0 WkNone))
+    | _, _ => ret tt
+    end ;;;
+    close.
 
   (* the body of transition_to inside `try:` *)
   Definition transition_body (ns : pstate) : LM unit :=
@@ -532,6 +544,7 @@ Section Reentrant.
     | CKill m => kill m
     | CResume v => resume v
     | CFail e => fail e
+    | CRaise e => raise e
     end.
 End Reentrant.
 
@@ -837,7 +850,7 @@ Definition run_entry (r : rentry) : LM unit :=
 
 (* ------------------------------------------------------------------ construction *)
 Definition init_world (c : config) : world :=
-  mk_world c None false None None None [] 0 None None None PfPending true false false [] true false false
+  mk_world c None false None None None [] 0 None None None PfPending true false false [0] true false false
            [] (cf_ospec c) PcNotStarted [] [] [] [].
 
 (* StateMachineMeta.__call__: transition_to(create_initial_state()); init().  The harness then creates
